@@ -19,6 +19,9 @@ RULES = {
     "R15.5": "at most once (shared with C05 R05.1 / R05.3): the refunding writes cannot be repeated - status := Executed only from "
              "current_status == Passed, status := Rejected only from a stored status that is not Executed / Rejected / Passed, not "
              "passed and expired - so neither Execute nor Close (and hence their refund) can succeed twice on one proposal",
+    "R15.6": "the configured deposit is the stored deposit: instantiate stores CONFIG.proposal_deposit = None when the message has "
+             "none, else Some(DepositInfo{amount, refund_failed_proposals}) exactly as given (no narrowing, rescaling or "
+             "substitution) with the denom validated (native denom unchanged, cw20 address through addr_validate)",
     "R15.4": "recoverability: since Close refuses proposals whose stored status is Rejected, no path other than Close may "
              "persist a status that can evaluate to Rejected (status := current_status(..)) without emitting the refund",
 }
@@ -40,6 +43,7 @@ def run(ctx):
                   detail="cw3 storage namespaces not found"):
         return
     PROP, CFG = it["proposals"], it["flex_config"]
+    check_deposit_as_configured(ctx, CFG)
     groups = exec_paths(ctx, CRATE, opaque=(CS, AUTHORIZE, CHECK_PAID))
     n_create = n_refund = 0
     # Close refuses a stored Rejected when none of its successful paths admits one (a repair may admit it under a one-shot marker:
@@ -208,3 +212,49 @@ def check_paid_body(ctx):
         else:
             ctx.ob("R15.1", "check_native_deposit_paid/?", False, detail="unrecognised Ok case %s" % kind)
     ctx.floor("R15.1", "check_native_deposit_paid Ok cases", n, 2)
+
+
+def check_deposit_as_configured(ctx, CFG):
+    """R15.6: everything else in this property is decided against the stored deposit, so it has to be the configured one"""
+    from ..idioms import entry_points, field_of
+    from ..engine import NONE
+    eps = entry_points(ctx.facts, CRATE)
+    n = 0
+    if "instantiate" not in eps:
+        ctx.ob("R15.6", "anchor:instantiate", False, detail="%s has no instantiate" % CRATE, trivial=True)
+        return
+    M = ("field", ("param", "msg"), "proposal_deposit")
+    U = ("vfield", M, "Some", "0")
+    for p in ctx.summarise(eps["instantiate"]):
+        if p.is_err():
+            continue
+        for e in p.effects:
+            if not (e.kind == "write" and e.item == CFG and e.op != "remove"):
+                continue
+            n += 1
+            got = field_of(e.value, "proposal_deposit")
+            given = [c[1] for c in p.conds if c[0] == M and isinstance(c[1], str)]
+            if given == ["None"] or got == NONE:
+                good = given == ["None"] and got == NONE
+                why = "message deposit %s but stored %s" % (given, show(got)[:120] if got else None)
+            else:
+                d = got[3][0][1] if got is not None and got[0] == "variant" and got[2] == "Some" else None
+                good = False
+                why = "stored deposit %s is not Some(DepositInfo{..})" % (show(got)[:160] if got else None)
+                if d is not None and d[0] == "struct":
+                    f = dict(d[2])
+                    dn = f.get("denom")
+                    dn_ok = False
+                    if dn is not None and dn[0] == "variant" and dn[2] == "Native":
+                        dn_ok = dn[3][0][1] == ("vfield", ("field", U, "denom"), "Native", "0")
+                    elif dn is not None and dn[0] == "variant" and dn[2] == "Cw20":
+                        a = dn[3][0][1]
+                        raw = ("vfield", ("field", U, "denom"), "Cw20", "0")
+                        dn_ok = a == raw or (a[0] == "vfield" and a[2] == "Ok" and a[1][0] == "call" and a[1][1].endswith("addr_validate")
+                                             and a[1][2][-1] == raw)
+                    good = (f.get("amount") == ("field", U, "amount") and dn_ok
+                            and f.get("refund_failed_proposals") == ("field", U, "refund_failed_proposals"))
+                    why = "stored deposit %s is not the message's amount / denom / refund flag" % show(d)[:240]
+            ctx.ob("R15.6", "instantiate/deposit stored as configured", good, detail=why, sites=[e.site],
+                   sample={"stored": show(got)[:200] if got else None})
+    ctx.floor("R15.6", "configuration writes in instantiate", n, 2)
